@@ -233,6 +233,44 @@ def run(ctx):
                                                          " ".join(hexb(x) for x in [b"name=new", b"exit=1", b"duration=2", b"user=root", b"time=2"])))
             mexp.append(("%d %s" % (rc, hexb(after)), dict(fault="ENOSPC on write", id=i)))
 
+    # -- a file larger than one stdio block, the fault hitting the second and later write(2) calls
+    for k in range(ctx.n(4, 60)):
+        nrows = rng.randint(150, 700)
+        with open(path, "wb") as f:
+            f.write(b"step,name,exit,duration,delta,log,user,time,skip\n")
+            for i in range(1, nrows + 1):
+                f.write(b"%d,step-number-%d,0,%d,0,%03d-step-number-%d.log,root,17000%05d,0\n" % (i, i, i % 97, i, i, i))
+        before = rd()
+        i = rng.randint(1, nrows + 1)
+        argv = ["strace", "-f", "-o", "/dev/null", "-P", path, "-e", "trace=write", "-e", "inject=write:error=ENOSPC:when=%d+" % rng.choice([2, 2, 3]),
+                step, "-W", "-f", path, "-i", str(i), "--", "name=new", "exit=1", "duration=2", "user=root", "time=2"]
+        if k % 2 == 0:
+            rc, out, err = core.run_cmd(argv, env=dict(os.environ, ASAN_OPTIONS="detect_leaks=0"))
+        else:
+            # a genuinely partial write: RLIMIT_FSIZE below the new size, SIGXFSZ ignored (write(2) returns short, then EFBIG)
+            import resource
+            import signal
+            lim = rng.choice([4096, 8192, 12288, len(before) // 2])
+
+            def pre():
+                signal.signal(signal.SIGXFSZ, signal.SIG_IGN)
+                resource.setrlimit(resource.RLIMIT_FSIZE, (lim, lim))
+            r = subprocess.run(argv[10:], capture_output=True, preexec_fn=pre, env=dict(os.environ, ASAN_OPTIONS="detect_leaks=0"))
+            rc, out, err = r.returncode, r.stdout, r.stderr
+        after = rd()
+        evals += 1
+        kinds["fault"] += 1
+        if rc == 0:
+            rc2, out2, _ = core.run_cmd([step, "-R", "-f", path, "-n", "new"], stdin=b"${exit}\n")
+            rc3, out3, _ = core.run_cmd([step, "-R", "-f", path, "-i", "-1"], stdin=b"${step}\n")
+            if rc2 != 0 or out2 != b"1\n" or rc3 != 0:
+                ctx.violation("write exited 0 although a later write(2) of the flush was refused; the file does not hold the new state",
+                              dict(cmd="strace -P F -e trace=write -e inject=write:error=ENOSPC:when=2+ robsd-step -W -f F -i %d -- name=new exit=1 duration=2 user=root time=2" % i,
+                                   rows=nrows, size_before=len(before), size_after=len(after), rc=rc))
+                break
+        else:
+            fired += 1
+
     if mreq:
         ans = ctx.model(mreq)
         for q, a, (want, info) in zip(mreq, ans, mexp):
